@@ -34,8 +34,8 @@ BUILT = {
  "C16": dict(cat="exploration", tech="deterministic simulation: hostile channel delivering the cross product of proof, statement and batch shapes in child processes with write-ahead run ids; allocator seam and deterministic work counter as resource oracles",
    text="Seeded hostile deliveries (extension tag 0..8/255, rounds up to 2000 and fit+-1, lengths off by 1/31/32/33, identity/undecodable/non-canonical/all-ones elements, statement shapes incl. capacity > m and shapes the constructors must refuse, batch shapes with mixed bits/ext/capacity, a member repeated across the 256 chunk limit, unequal sequence lengths, empty, honest proofs with stacked channel faults, random bytes) in all modes; oracles: no panic under catch_unwind (overflow checks on), child process exits normally (abort attributed through the write-ahead file), allocation peak (Ristretto) and scalar-point work (free module) linear in input size. Two thirds of the runs on Ristretto because dalek's backend assertions are the hazard.",
    note="Statements built through the validating constructors only; allocation bound 4 KiB per input unit + 1 MiB; wall-clock is only a watchdog.", ref="5/C16"),
- "C18": dict(cat="exploration", tech="deterministic simulation: operation-level seeded scheduler interleaving logical clients over shared parameter objects (two interleavings + repetition + injected crashes + fresh-process baseline), and Miri's seeded scheduler over real threads with race detection",
-   text="Native: 3-6 logical clients with scripts of self-contained operations over a shared pool of parameter objects; the same scripts run under two seeded interleavings, each operation is repeated, 10% of prover operations crash via an injected RNG panic and the following operations must be served unaffected; sampled operations also run first in a fresh process; an operation's result digest must be a function of its descriptor only. Schedule: Miri interprets 2-3 real threads racing first use of the statics, sharing one precomputed table, and (thorough) proving/verifying concurrently, compared with a single-threaded reference.",
+ "C18": dict(cat="exploration", tech="deterministic simulation: seeded cooperative scheduler preempting real threads INSIDE library calls at the simulator-owned seams (group operations, transcript operations, RNG reads); operation-level seeded scheduler over shared parameter objects (two interleavings + repetition + injected crashes + fresh-process baseline); Miri's seeded scheduler with race detection",
+   text="Native: 3-6 logical clients with scripts of self-contained operations over a shared pool of parameter objects; the same scripts run under two seeded interleavings, each operation is repeated, 10% of prover operations crash via an injected RNG panic and the following operations must be served unaffected; sampled operations also run first in a fresh process; an operation's result digest must be a function of its descriptor only. Cooperative threads: 2-3 OS threads share one parameter object whose capacity exceeds every aggregate and prove / verify aggregates of different sizes; each parks at every group operation, transcript operation and RNG read and the seeded scheduler decides who continues (one seed = one replayable interleaving inside library calls); every result must equal the same operation executed alone. Schedule: Miri interprets 2-3 real threads racing first use of the statics, sharing one precomputed table, and (thorough) proving/verifying concurrently, compared with a single-threaded reference.",
    note="Operation-level atomicity assumed in the native part (the shared state that exists is inside the Miri scenarios); full-protocol Miri schedules are few (2.5 min each) and thorough-only.", ref="5/C18"),
  "C03": dict(cat="exploration", tech="deterministic simulation: seeded scheduler of a verifier node decides batch membership, size and order over a duplicated/reordered message pool; refinement against the sequential reference model (one-at-a-time verification)",
    text="A simulated verifier node drains a pool of valid and defective messages; the seeded scheduler decides which members form a batch, how many (1..1100, concentrated on 255/256/257/511/512/513), with what repetition, in what order and in which mode. Oracle: batch Ok iff every member's singleton verdict is Ok, exactly k results, result i equal to member i's singleton mask; malformed shapes (empty, unequal sequence lengths, a member that disagrees on bits / extension degree / H / G_k but is valid on its own) are refused. Sizes beyond the chunk limit and invalid members placed beyond it are reached in every quick run (probe counters enforce it).",
